@@ -100,6 +100,40 @@ def pushAssoc (d : DS) (t : Nat) : DS :=
   | some p => enq { d with a := poolUse d.a t } p t
   | none => d
 
+/-- `ABT_pool_pop_threads(pool, buf, m, &n)` on a built-in pool (pop_many from the head) or on the legacy pool 4
+(the adapter calls the user's `p_pop` until the buffer is full or the pool reports empty, and translates every unit with the
+runtime's table): returns the threads taken in order and the callback events -/
+def popMany (d : DS) (p : Nat) : Nat → DS × List Nat × String
+  | 0 => (d, [], "")
+  | m + 1 =>
+    let l := d.q.getD p []
+    match l with
+    | [] => (d, [], if isBuiltinPool p then "" else s!" | pop p{p} none")
+    | t :: rest =>
+      let d1 := { d with q := d.q.setIfInBounds p rest }
+      let d2 := setT d1 t { getT d1 t with st := 2 }
+      let ev := match (d.a.thr t).unit with
+        | .user u =>
+          let chk := if p == 4 && unitThread d.a (.user u) != some t then "!lookup-mismatch" else ""
+          s!" | pop p{p} u{slotOf u}" ++ chk
+        | _ => ""
+      let (d3, ts, evs) := popMany d2 p m
+      (d3, t :: ts, ev ++ evs)
+
+/-- `ABT_pool_push_threads(pool, ts, n)` into a built-in pool: every thread is re-associated first (the unit a
+user-defined pool made for it is released), then all are pushed in order -/
+def pushMany (d : DS) (p : Nat) (ts : List Nat) : Option DS :=
+  let r := ts.foldl (fun (acc : Option DS) t =>
+    match acc with
+    | none => none
+    | some d =>
+      match setAssoc d.a t p (nextUnit d p t) true with
+      | some (a', .ok) => some { d with a := a' }
+      | _ => none) (some d)
+  match r with
+  | none => none
+  | some d1 => some (ts.foldl (fun d t => setT (pushAssoc d t) t { getT d t with st := 1 }) d1)
+
 def validT (d : DS) (t st : Nat) : Bool := t < d.ts.size && (getT d t).st == st
 
 def step (d : DS) (ws : List String) : DS × String :=
@@ -141,6 +175,25 @@ def step (d : DS) (ws : List String) : DS × String :=
               s!" | pop p{p} u{slotOf u}" ++ chk
             | _ => ""
           (d2, s!"pop 0 t{t}" ++ ev)
+      else (d, "bad-op")
+    | _, _ => (d, "bad-op")
+  | ["popn", p, m] =>
+    match p.toNat?, m.toNat? with
+    | some p, some m =>
+      if (p < 2 || p == 4) && 1 ≤ m && m ≤ 8 then
+        let (d1, ts, ev) := popMany d p m
+        (d1, s!"popn 0 {ts.length}" ++ String.join (ts.map fun t => s!" t{t}") ++ ev)
+      else (d, "bad-op")
+    | _, _ => (d, "bad-op")
+  | "pushn" :: p :: tl =>
+    match p.toNat?, tl.mapM (fun x => x.toNat?) with
+    | some p, some ts =>
+      if p < 2 && 1 ≤ ts.length && ts.length ≤ 4 && ts.Nodup && ts.all (fun t => validT d t 2) then
+        match pushMany d p ts with
+        | none => (d, "pushn abort")
+        | some d1 =>
+          let (d2, ev) := flushEvents d1
+          (d2, "pushn 0" ++ ev)
       else (d, "bad-op")
     | _, _ => (d, "bad-op")
   | "run" :: t :: act :: rest =>
